@@ -25,11 +25,11 @@ Definition toks (p : pc) : bool :=
   | _ => false
   end.
 
-Definition ret_waits (k : ret) : bool := match k with RIdle => false | RWait _ _ _ => true end.
+Definition ret_waits (k : ret) : bool := match k with RIdle => false | RWait _ _ => true end.
 (* a thread inside the slow path of a sync call, its item pushed and not yet consumed *)
 Definition waitpc (p : pc) : bool :=
   match p with
-  | SW_rmw _ _ _ | SW_wait _ _ => true
+  | SW_rmw _ _ | SW_wait _ _ => true
   | X_rootpush k | BC_tail k | BC_class k _ | BC_xor k | DBW_pop k _ | DBW_xfer k _ _ _ | DBW_wake k _
   | DN_and k | DN_loop k _ | DN_add k | DN_acq k | DN_pop k _ | DN_wake k _ _ _ | DN_fin k _ _ | DN_xor k _ => ret_waits k
   | _ => false
@@ -92,7 +92,7 @@ Record thread_inv (s : gst) (t : Z) : Prop := {
   t_owns : lockh s = Some t <-> (owns (pcs s t) = true \/ grant s t = GOwner);
   t_tok : tokh s = Some t <-> toks (pcs s t) = true;
   t_grant : grant s t <> GNone -> waitpc (pcs s t) = true;
-  t_excl : grant s t = GOwner -> owns (pcs s t) = false;
+  t_excl : grant s t = GOwner -> owns (pcs s t) = false /\ bmode s = true;
   t_pc : owns (pcs s t) = true -> pcinv s (pcs s t)
 }.
 
